@@ -35,10 +35,13 @@ MANIFEST = dict(
          "reservations, flag patterns, by induction): numbering from 1 without gaps, a break only when the row "
          "does not fit or a grouping rule demands it, always then, prefix stability. The model is tied to the code "
          "on every run by unit correspondence (exhaustive small vectors + random) and by observation of whole "
-         "documents whose observed pagination is judged by the Lean-defined oracle checkBreaks.",
+         "documents whose observed pagination is judged by the Lean-defined oracle checkBreaks; in addition the "
+         "loop of _assign_pages is translated from its Python source on every run (harness/pytranslate.py) and proved "
+         "equal to the model for all inputs (Props/C04py.lean).",
     note="Row costs in the document-level oracle come from the harness (texts well inside a line band, measured "
          "with the real get_string_width); Pillow, polars and pydantic are parameters.",
-    technique="Lean 4 proof (induction over rows) + differential correspondence model/implementation",
+    technique="Lean 4 proof (induction over rows) + source-to-Lean translation of _assign_pages with an equality theorem + "
+              "differential correspondence model/implementation",
     design="7/C04",
 )
 ASSUME = [
